@@ -72,6 +72,9 @@ MODELS = [
     dict(id="gG", strand="PLUS", txs=[dict(exons=[(3, 20)], cds=None, f0=0, type=None)]),
     dict(id="gH", strand="PLUS", txs=[dict(exons=[(0, 24)], cds=[(0, 24)], f0=0, type="protein_coding"),                  # internal stop
                                       dict(exons=[(0, 12)], cds=[(0, 12)], f0=0, type=None)]),
+    # several non-coding isoforms: a typed one followed by isoforms without a GenBank feature type of their own -> misc_RNA each
+    dict(id="gI", strand="PLUS", txs=[dict(exons=[(3, 20)], cds=None, f0=0, type="tRNA"), dict(exons=[(5, 18)], cds=None, f0=0, type=None),
+                                      dict(exons=[(4, 9), (12, 19)], cds=None, f0=0, type=None)]),
 ]
 TX_TYPE = {"protein_coding": "mRNA", "tRNA": "tRNA", None: None}
 
